@@ -424,4 +424,5 @@ RULES = [
 	('19.g', 'archive removes the live monitor only after the archive copy was written; Completed only on Ok', r19g),
 	('19.q', 'no call hands a value named like one parameter of the callee to a different parameter (swapped type-compatible arguments; rules/provenance.py)', lambda F: provenance.swaps_for_property(F, 'C19', '19.q')),
 	('19.z', 'named protocol / policy constants in this property\'s files have their reviewed values (rules/provenance.py)', lambda F: provenance.consts_for_property(F, 'C19', '19.z')),
+	('19.y', 'no reviewed function gained a swallowed error (the Result of a fallible in-crate call dropped; rules/provenance.py)', lambda F: provenance.dr_for_property(F, 'C19', '19.y')),
 ]
